@@ -19,4 +19,3 @@ INVARIANT DistDefinedIffMaybeSub
 INVARIANT StrictImpliesMaybe
 INVARIANT OfferedCompatible
 INVARIANT ProvidersAgree
-INVARIANT CacheCoherent
